@@ -1,95 +1,711 @@
 /-
   C03 — the Rust encoder emits exactly the wire format of the language reference.
 
-  `Pdlv.Ref` is the reference at the level of bits; the emitted code works with shifts, ors and
-  `put_uint`.  The theorems below are the arithmetic that connects the two formulations.
+  `Pdlv.Ref` is the reference at the level of bits (written from doc/reference.md); the emitted
+  code works with shifts, ors and `put_uint`.  `Pdlv.Lemmas.RefBits` holds the arithmetic that
+  connects the two formulations (`bitsOf_append`, `groupBytes_eq_putUint`, …); this file states
+  the whole-packet result: the encoder model in reference mode (`Mode.ideal` — the executable
+  reference every back end is compared with) writes exactly `Ref.encode`.
 -/
-import Pdlv.Ref
-import Pdlv.Lemmas.Bits
+import Pdlv.Lemmas.RefBits
+import Pdlv.Lemmas.RefEq
 
 namespace Pdlv
-namespace Ref
+open Ref
 
-/-- a bit stream read back as a number is the number it came from -/
-theorem natOfBits_bitsOf (w n : Nat) : natOfBits (bitsOf w n) = n % 2 ^ w := by
-  induction w generalizing n with
-  | zero => simp [bitsOf, natOfBits, Nat.mod_one]
-  | succ w ih =>
-    simp only [bitsOf, natOfBits, ih]
-    have h2 : 2 ^ (w + 1) = 2 * 2 ^ w := by rw [Nat.pow_succ, Nat.mul_comm]
-    rw [h2, Nat.mod_mul]
-    have : (if (n % 2 == 1) = true then 1 else 0) = n % 2 := by
-      have := Nat.mod_two_eq_zero_or_one n
-      rcases this with h | h <;> simp [h]
-    rw [this]
+/-- integer leaves: `put_uint{_le}(x, w/8)` writes the reference bit stream of `x` -/
+theorem intBytes_ref (e : Endian) (w x : Nat) (hw : w % 8 = 0) :
+    groupBytes e (bitsOf w x) = putUint e w x := by
+  have : w = 8 * (w / 8) := by omega
+  rw [this]; exact groupBytes_eq_putUint e (w / 8) x
 
-theorem bitsOf_length (w n : Nat) : (bitsOf w n).length = w := by
-  induction w generalizing n with
-  | zero => rfl
-  | succ w ih => simp [bitsOf, ih]
+theorem listField_get (v : Value) (id : String) (vs : List Value) (h : listField v id = .ok vs) :
+    v.get? id = some (.arr vs) := by
+  simp only [listField] at h
+  split at h
+  · rename_i ws hws; simp only [Outcome.ok.injEq] at h; rw [hws, h]
+  · cases h
 
-/-- **Consecutive bit-fields are packed least-significant-bit first**: the bit stream of a
-    field followed by the bit stream of the rest is the bit stream of `v + 2^w * rest`
-    — which is what the emitted `(v << off) | …` computes (`packOr_eq`, `packAcc_eq`). -/
-theorem bitsOf_append (w w' v n : Nat) (hv : v < 2 ^ w) :
-    bitsOf w v ++ bitsOf w' n = bitsOf (w + w') (v + 2 ^ w * n) := by
-  induction w generalizing v with
-  | zero =>
-    have : v = 0 := by simpa using hv
-    subst this; simp [bitsOf]
-  | succ w ih =>
-    have hw : w + 1 + w' = (w + w') + 1 := by omega
-    rw [hw]
-    simp only [bitsOf, List.cons_append]
-    have h2 : 2 ^ (w + 1) = 2 * 2 ^ w := by rw [Nat.pow_succ, Nat.mul_comm]
-    have hmod : (v + 2 ^ (w + 1) * n) % 2 = v % 2 := by
-      rw [h2, Nat.mul_assoc, Nat.add_mul_mod_self_left]
-    have hdiv : (v + 2 ^ (w + 1) * n) / 2 = v / 2 + 2 ^ w * n := by
-      rw [h2, Nat.mul_assoc, Nat.add_mul_div_left _ _ (by decide : 0 < 2)]
-    rw [hmod, hdiv, ih (v / 2) (by rw [h2] at hv; omega)]
+mutual
+theorem encTy_ref (c : Cfg) (hm : c.mode = .ideal) : ∀ (ty : Ty) (x : Value) (bs : Bytes),
+    refWfTy ty = true → encTy c ty x = .ok bs → Ref.encTy c.e ty x = some bs
+  | .scalar w, x, bs, hw, he => by
+    simp only [refWfTy, beq_iff_eq] at hw
+    cases x with
+    | int n =>
+      simp only [encTy, elemOutOfRange, hm] at he
+      split at he
+      · cases he
+      · split at he
+        · cases he
+        · rename_i h1 h2
+          simp only [Outcome.ok.injEq] at he
+          have hlt : n < 2 ^ w := by
+            have hpos : 0 < 2 ^ w := Nat.two_pow_pos w
+            have : ¬ n > maskBits w := by simpa using h2
+            unfold maskBits at this; omega
+          simp only [Ref.encTy, fits, hlt, decide_true, ↓reduceIte, intBytes_ref c.e w n hw, he]
+    | arr _ => simp [encTy] at he
+    | obj _ => simp [encTy] at he
+    | null => simp [encTy] at he
+  | .enumTy nm en, x, bs, hw, he => by
+    simp only [refWfTy, beq_iff_eq] at hw
+    cases x with
+    | int n =>
+      simp only [encTy] at he
+      split at he
+      · rename_i hok
+        simp only [Outcome.ok.injEq] at he
+        simp only [Ref.encTy, hok, ↓reduceIte, intBytes_ref c.e en.width n hw, he]
+      · cases he
+    | arr _ => simp [encTy] at he
+    | obj _ => simp [encTy] at he
+    | null => simp [encTy] at he
+  | .custom nm w, x, bs, hw, he => by
+    simp only [refWfTy, beq_iff_eq] at hw
+    cases x with
+    | int n =>
+      simp only [encTy] at he
+      split at he
+      · rename_i hlt
+        simp only [Outcome.ok.injEq] at he
+        simp only [Ref.encTy, fits, hlt, decide_true, ↓reduceIte, intBytes_ref c.e w n hw, he]
+      · cases he
+    | arr _ => simp [encTy] at he
+    | obj _ => simp [encTy] at he
+    | null => simp [encTy] at he
+  | .struct _ (.root nm items), x, bs, hw, he => by
+    simp only [refWfTy, Bool.and_eq_true, decide_eq_true_eq] at hw
+    simp only [encTy, encBody] at he
+    simp only [Ref.encTy, Ref.encBody]
+    split at he
+    · cases he
+    · rename_i p hp
+      simp only [hp]
+      obtain ⟨h1, h2⟩ := wireArrs_ref c hm items (.ok p) p.length x items bs hw.1.1 he
+      simp only [h1]
+      have hnd' : ((wireArrs c items x).map (·.id)).Nodup := (wireArrs_ids_sublist c x items).nodup hw.2
+      exact encItems_ref c hm items p x (wireArrs c items x) h2 hnd' items bs hw.1.1 (fun a ha => ha) he
+  | .struct _ (.derived ..), x, bs, hw, he => by simp [refWfTy] at hw
 
-/-- cutting the bit stream of an `8k`-bit number into octets gives its little-endian bytes:
-    the group is written in the file's byte order (`put_uint_le`); see `groupBytes_big` -/
-theorem bytesOfBits_bitsOf (k n : Nat) : bytesOfBits k (bitsOf (8 * k) n) = toLE k n := by
-  induction k generalizing n with
-  | zero => rfl
-  | succ k ih =>
-    have h8 : 8 * (k + 1) = 8 + 8 * k := by omega
-    rw [h8]
-    have hsplit : bitsOf (8 + 8 * k) n = bitsOf 8 (n % 256) ++ bitsOf (8 * k) (n / 256) := by
-      have := bitsOf_append 8 (8 * k) (n % 256) (n / 256) (Nat.mod_lt _ (by decide))
-      rw [this]
-      congr 1
-      have := Nat.mod_add_div n 256
-      simpa using this.symm
-    rw [hsplit]
-    simp only [bytesOfBits, toLE]
-    have hl : (bitsOf 8 (n % 256)).length = 8 := bitsOf_length _ _
-    rw [List.take_left' hl, List.drop_left' hl, ih, natOfBits_bitsOf]
-    congr 2
-    exact Nat.mod_eq_of_lt (Nat.mod_lt _ (by decide))
+/-- the reference computes exactly the array table of the encoder model, and the table has the
+    sizes, counts and element sizes the chunk encoder derives from the value -/
+theorem wireArrs_ref (c : Cfg) (hm : c.mode = .ideal) (all : Items) (p : Enc Bytes) (pl : Nat) (v : Value) :
+    ∀ (is : Items) (bs : Bytes), refWfItems all is = true → encItems c all p pl v is = .ok bs →
+      Ref.arrays c.e is v = some (wireArrs c is v) ∧ ArrCorr is v (wireArrs c is v)
+  | .nil, bs, _, _ => by
+    refine ⟨by simp [Ref.arrays, wireArrs], ?_⟩
+    intro t elem ew h; simp [firstArray] at h
+  | .cons i r, bs, hw, he => by
+    simp only [refWfItems, Bool.and_eq_true] at hw
+    simp only [encItems] at he
+    obtain ⟨a, ha, h2⟩ := bind_ok _ _ _ he
+    obtain ⟨b, hb, _⟩ := bind_ok _ _ _ h2
+    obtain ⟨ih1, ih2⟩ := wireArrs_ref c hm all p pl v r b hw.2 hb
+    cases i with
+    | array id elem ew shape pad =>
+      simp only [refWfItem, Bool.and_eq_true] at hw
+      simp only [encItem] at ha
+      obtain ⟨vs, hvs, h3⟩ := bind_ok _ _ _ ha
+      obtain ⟨_, _, h4⟩ := bind_ok _ _ _ h3
+      obtain ⟨_, _, h5⟩ := bind_ok _ _ _ h4
+      obtain ⟨es, hes, _⟩ := bind_ok _ _ _ h5
+      have hget := listField_get v id vs hvs
+      have hel := encElems_of_encListWith (encTy c elem) (Ref.encTy c.e elem) (lenTy elem)
+        (fun x b hx => ⟨encTy_ref c hm elem x b hw.1.1 hx, encTy_len c elem x b hw.1.2 hx⟩) vs es hes
+      have hlen : es.length = sumLen (lenTy elem) vs :=
+        encListWith_length (encTy c elem) (lenTy elem) (fun x b hx => encTy_len c elem x b hw.1.2 hx) vs es hes
+      refine ⟨by simp only [Ref.arrays, hget, hel, ih1, wireArrs, hes], ?_⟩
+      intro t el ew' hfa
+      simp only [firstArray] at hfa
+      simp only [wireArrs, hget, hes]
+      by_cases hid : (id == t) = true
+      · simp only [hid, ↓reduceIte, Option.some.injEq, Prod.mk.injEq] at hfa
+        have hid' : id = t := by simpa using hid
+        refine ⟨{ id := id, bytes := es, elemLens := vs.map (lenTy elem), count := vs.length }, vs,
+          by simp [lookupArr, hid], hid' ▸ hget, rfl, by rw [← hfa.1], by rw [← hfa.1]; exact hlen⟩
+      · have hid' : (id == t) = false := by simpa using hid
+        simp only [hid', Bool.false_eq_true, ↓reduceIte] at hfa
+        obtain ⟨a', vs', h1, h2', h3', h4', h5'⟩ := ih2 t el ew' hfa
+        exact ⟨a', vs', by simp [lookupArr, hid', List.find?_cons]; exact h1, h2', h3', h4', h5'⟩
+    | chunk fs =>
+      refine ⟨by simpa [Ref.arrays, wireArrs] using ih1, ?_⟩
+      intro t el ew' hfa; simp only [firstArray] at hfa; simpa [wireArrs] using ih2 t el ew' hfa
+    | typedef id ty sb =>
+      refine ⟨by simpa [Ref.arrays, wireArrs] using ih1, ?_⟩
+      intro t el ew' hfa; simp only [firstArray] at hfa; simpa [wireArrs] using ih2 t el ew' hfa
+    | optional id ty ci cv =>
+      refine ⟨by simpa [Ref.arrays, wireArrs] using ih1, ?_⟩
+      intro t el ew' hfa; simp only [firstArray] at hfa; simpa [wireArrs] using ih2 t el ew' hfa
+    | payload m =>
+      refine ⟨by simpa [Ref.arrays, wireArrs] using ih1, ?_⟩
+      intro t el ew' hfa; simp only [firstArray] at hfa; simpa [wireArrs] using ih2 t el ew' hfa
 
-/-- **A group of `8k` bits holding the number `n` is written exactly as the emitted code writes it**:
-    `put_uint_le(n, k)` for little-endian files, `put_uint(n, k)` for big-endian ones. -/
-theorem groupBytes_eq_putUint (e : Endian) (k n : Nat) :
-    groupBytes e (bitsOf (8 * k) n) = putUint e (8 * k) n := by
-  unfold groupBytes putUint
-  simp only [bitsOf_length]
-  have hk : 8 * k / 8 = k := by omega
-  rw [hk, bytesOfBits_bitsOf]
-  cases e <;> simp [toBE]
+theorem encItems_ref (c : Cfg) (hm : c.mode = .ideal) (all : Items) (p : Bytes) (v : Value) (arrs : List ArrInfo)
+    (hcorr : ArrCorr all v arrs) (hnd : (arrs.map (·.id)).Nodup) :
+    ∀ (is : Items) (bs : Bytes), refWfItems all is = true → (∀ a ∈ wireArrs c is v, a ∈ arrs) →
+      encItems c all (.ok p) p.length v is = .ok bs → Ref.encItems c.e arrs p v is = some bs
+  | .nil, bs, _, _, he => by
+    simp only [encItems, Outcome.ok.injEq] at he
+    simp [Ref.encItems, he]
+  | .cons i r, bs, hw, hmem, he => by
+    simp only [refWfItems, Bool.and_eq_true] at hw
+    simp only [encItems] at he
+    obtain ⟨a, ha, h2⟩ := bind_ok _ _ _ he
+    obtain ⟨b, hb, h3⟩ := bind_ok _ _ _ h2
+    simp only [Outcome.ok.injEq] at h3
+    have hrest : ∀ x ∈ wireArrs c r v, x ∈ arrs := by
+      intro x hx
+      apply hmem
+      cases i with
+      | array id elem ew shape pad =>
+        simp only [wireArrs]
+        split
+        · split
+          · exact List.mem_cons_of_mem _ hx
+          · exact hx
+        · exact hx
+      | chunk fs => simpa [wireArrs] using hx
+      | typedef id ty sb => simpa [wireArrs] using hx
+      | optional id ty ci cv => simpa [wireArrs] using hx
+      | payload m => simpa [wireArrs] using hx
+    have ihr := encItems_ref c hm all p v arrs hcorr hnd r b hw.2 hrest hb
+    have hitem : Ref.encItem c.e arrs p v i = some a := by
+      cases i with
+      | chunk fs =>
+        simp only [refWfItem, Bool.and_eq_true, beq_iff_eq, List.all_eq_true] at hw
+        simp only [encItem, hm, BEq.rfl] at ha
+        obtain ⟨X, hX, h4⟩ := bind_ok _ _ _ ha
+        simp only [Outcome.ok.injEq] at h4
+        obtain ⟨N, hN, hXN⟩ := chunk_ref all p.length v arrs hcorr fs 0 0 X
+          (fun f hf => by simpa using hw.1.2 f hf) hX
+        have : X = N := by simpa using hXN
+        subst this
+        simp only [Ref.encItem, hN, Option.map_some, intBytes_ref c.e (chunkBits fs) X hw.1.1, h4]
+      | typedef id ty sb =>
+        simp only [refWfItem] at hw
+        simp only [encItem] at ha
+        cases hv : v.get? id with
+        | none => simp [hv] at ha
+        | some x =>
+          simp only [hv] at ha
+          simp only [Ref.encItem, hv]
+          exact encTy_ref c hm ty x a hw.1 ha
+      | optional id ty ci cv =>
+        simp only [refWfItem] at hw
+        simp only [encItem] at ha
+        cases hv : v.get? id with
+        | none => simp only [hv, Outcome.ok.injEq] at ha; simp [Ref.encItem, hv, ha]
+        | some x =>
+          cases x with
+          | null => simp only [hv, Outcome.ok.injEq] at ha; simp [Ref.encItem, hv, ha]
+          | int n =>
+            simp only [hv] at ha
+            simp only [Ref.encItem, hv]
+            cases ty with
+            | scalar w =>
+              simp only [refWfTy, beq_iff_eq] at hw
+              simp only at ha
+              split at ha
+              · cases ha
+              · split at ha
+                · cases ha
+                · rename_i h1 h2
+                  simp only [Outcome.ok.injEq] at ha
+                  have hlt : n < 2 ^ w := by
+                    by_cases hbw : backingOf w > w
+                    · have : ¬ n > maskBits w := fun hh => h2 ⟨hbw, hh⟩
+                      have hpos : 0 < 2 ^ w := Nat.two_pow_pos w
+                      unfold maskBits at this; omega
+                    · have hle : backingOf w ≤ w := by omega
+                      have : 2 ^ backingOf w ≤ 2 ^ w := Nat.pow_le_pow_right (by decide) hle
+                      omega
+                  simp only [Ref.encTy, fits, hlt, decide_true, ↓reduceIte, intBytes_ref c.e w n hw.1, ha]
+            | enumTy nm en => exact encTy_ref c hm (.enumTy nm en) (.int n) a hw.1 ha
+            | custom nm w => exact encTy_ref c hm (.custom nm w) (.int n) a hw.1 ha
+            | struct nm b' => exact encTy_ref c hm (.struct nm b') (.int n) a hw.1 ha
+          | arr l =>
+            simp only [hv] at ha
+            simp only [Ref.encItem, hv]
+            cases ty with
+            | scalar w => simp at ha
+            | enumTy nm en => exact encTy_ref c hm (.enumTy nm en) (.arr l) a hw.1 ha
+            | custom nm w => exact encTy_ref c hm (.custom nm w) (.arr l) a hw.1 ha
+            | struct nm b' => exact encTy_ref c hm (.struct nm b') (.arr l) a hw.1 ha
+          | obj l =>
+            simp only [hv] at ha
+            simp only [Ref.encItem, hv]
+            cases ty with
+            | scalar w => simp at ha
+            | enumTy nm en => exact encTy_ref c hm (.enumTy nm en) (.obj l) a hw.1 ha
+            | custom nm w => exact encTy_ref c hm (.custom nm w) (.obj l) a hw.1 ha
+            | struct nm b' => exact encTy_ref c hm (.struct nm b') (.obj l) a hw.1 ha
+      | payload m =>
+        simp only [encItem, Outcome.ok.injEq] at ha
+        simp [Ref.encItem, ha]
+      | array id elem ew shape pad =>
+        simp only [encItem] at ha
+        obtain ⟨vs, hvs, h4⟩ := bind_ok _ _ _ ha
+        obtain ⟨_, hcc, h5⟩ := bind_ok _ _ _ h4
+        obtain ⟨_, _, h6⟩ := bind_ok _ _ _ h5
+        obtain ⟨es, hes, h7⟩ := bind_ok _ _ _ h6
+        have hget := listField_get v id vs hvs
+        have hrec : ({ id := id, bytes := es, elemLens := vs.map (lenTy elem), count := vs.length } : ArrInfo) ∈ arrs := by
+          apply hmem
+          simp only [wireArrs, hget, hes]
+          exact List.mem_cons_self ..
+        have hlook := lookupArr_of_mem arrs _ hrec hnd
+        simp only at hlook
+        have hcnt : ∀ n, shape = .static n → vs.length = n := by
+          intro n hs
+          subst hs
+          simp only [checkCount] at hcc
+          split at hcc
+          · assumption
+          · cases hcc
+        cases pad with
+        | none =>
+          simp only [padTo, Outcome.ok.injEq] at h7
+          cases shape with
+          | «static» n => simp [Ref.encItem, hlook, hcnt n rfl, h7]
+          | countField => simp [Ref.encItem, hlook, h7]
+          | sizeField => simp [Ref.encItem, hlook, h7]
+          | unknown => simp [Ref.encItem, hlook, h7]
+        | some q =>
+          simp only [padTo] at h7
+          split at h7
+          · rename_i hle
+            simp only [Outcome.ok.injEq] at h7
+            cases shape with
+            | «static» n => simp [Ref.encItem, hlook, hcnt n rfl, hle, h7]
+            | countField => simp [Ref.encItem, hlook, hle, h7]
+            | sizeField => simp [Ref.encItem, hlook, hle, h7]
+            | unknown => simp [Ref.encItem, hlook, hle, h7]
+          · cases h7
+    simp only [Ref.encItems, hitem, ihr, h3]
 
-/-- reserved bits are zero -/
-theorem reserved_zero (w : Nat) : natOfBits (bitsOf w 0) = 0 := by
-  rw [natOfBits_bitsOf]; simp
+end
 
-/-- array padding is zero -/
-theorem padding_zero (k : Nat) : ∀ b ∈ zeros k, b = 0 := by
-  intro b hb; simp [zeros] at hb; exact hb.2
+/-- a packet or struct without parent -/
+theorem encRoot_ref (c : Cfg) (hm : c.mode = .ideal) (nm : String) (items : Items) (v : Value) (bs : Bytes)
+    (hw : refWfItems items items = true) (hl : lenWfItems items = true) (hnd : (arrayIds items).Nodup)
+    (he : encBody c (.root nm items) v = .ok bs) : Ref.encBody c.e (.root nm items) v none = some bs := by
+  have := encTy_ref c hm (.struct nm (.root nm items)) v bs
+    (by simp [refWfTy, hw, hl, hnd]) (by simpa [encTy] using he)
+  simpa [Ref.encTy] using this
 
-/-- non-vacuity / sanity: two fields `a: 3 = 5`, `b: 5 = 17` give the octet `0x8d` -/
-example : groupBytes .little (bitsOf 3 5 ++ bitsOf 5 17) = [0x8d] := by rfl
-example : putUint .big 16 0x1234 = [0x12, 0x34] := by rfl
+/-- **The reference implementation writes the reference wire format.**  For every packet or
+    struct without parent and every child of a packet without parent whose layout meets `refWfBody`
+    (decidable; evaluated by the check on every generated layout), every value and both byte
+    orders: whenever the encoder model in reference mode (`Mode.ideal`: the emitted encoder with
+    every recorded deviation replaced by what doc/reference.md prescribes — the oracle the Python,
+    C++ and Java back ends and the Rust decoder are compared with) produces bytes, they are exactly
+    the bit-level reference encoding `Ref.encode`: bit-fields packed LSB-first into groups written
+    in the file's byte order, size / count / element-size fields carrying the octet size (plus
+    modifier), the count and the common element size of what they designate, reserved bits zero,
+    padding zero, fixed and constrained fields at their constants, optional fields present iff the
+    flag says so, the child in the parent's payload. -/
+theorem encode_ideal_eq_ref (e : Endian) (b : Body) (hw : refWfBody b = true) (v : Value) (bs : Bytes)
+    (he : encBody { e := e, mode := .ideal } b v = .ok bs) : Ref.encode e b v = some bs := by
+  cases b with
+  | root nm items =>
+    simp only [refWfBody, Bool.and_eq_true, decide_eq_true_eq] at hw
+    exact encRoot_ref { e := e, mode := .ideal } rfl nm items v bs hw.1.1 hw.1.2 hw.2 he
+  | derived nm parent cs allCs items =>
+    cases parent with
+    | derived _ _ _ _ _ => simp [refWfBody] at hw
+    | root pn pitems =>
+      simp only [refWfBody, Bool.and_eq_true, decide_eq_true_eq] at hw
+      obtain ⟨⟨⟨⟨⟨⟨hwi, hli⟩, hndi⟩, hwp⟩, hlp⟩, hndp⟩, hpay⟩ := hw
+      let c : Cfg := { e := e, mode := .ideal }
+      simp only [encBody] at he
+      simp only [Ref.encode, Ref.encBody]
+      split at he
+      · cases he
+      · rename_i p hp
+        simp only [hp]
+        simp only [encAround] at he
+        have hv' : Value.obj (v.fields ++ allCs.map fun (k, c) => (k, Value.int c)) = withConstants allCs v := rfl
+        simp only [hv'] at he ⊢
+        -- the child's own bytes
+        obtain ⟨own, hown⟩ := encItems_inner_needed c pitems _ _ _ pitems bs hpay he
+        have hownLen : own.length = lenItems items (withConstants allCs v) := by
+          rw [encItems_len c items p p.length _ items own hli hown]
+          by_cases hh : items.hasPayload = true
+          · simp only [hh, ↓reduceIte] at hp
+            cases hg : v.get? "payload" with
+            | none => simp [hg] at hp
+            | some pv =>
+              simp only [hg, Option.bind_some] at hp
+              have hg' : (withConstants allCs v).get? "payload" = some pv := by
+                simp only [withConstants, Value.get?, Value.fields] at hg ⊢
+                rw [List.lookup_append, hg]; rfl
+              rw [valBytes_length pv p hp, ← hg']
+              exact lenItemsP_payloadLen _ items
+          · have hh' : items.hasPayload = false := by simpa using hh
+            exact lenItemsP_noPayload _ p.length items hh'
+        obtain ⟨a1, a2⟩ := wireArrs_ref c rfl items (.ok p) p.length (withConstants allCs v) items own hwi hown
+        have hndA : ((wireArrs c items (withConstants allCs v)).map (·.id)).Nodup :=
+          (wireArrs_ids_sublist c _ items).nodup hndi
+        have hRefOwn := encItems_ref c rfl items p (withConstants allCs v) _ a2 hndA items own hwi (fun a ha => ha) hown
+        have a1' : Ref.arrays e items (withConstants allCs v) = some (wireArrs c items (withConstants allCs v)) := a1
+        have hRefOwn' : Ref.encItems e (wireArrs c items (withConstants allCs v)) p (withConstants allCs v) items = some own := hRefOwn
+        simp only [a1', hRefOwn']
+        -- the parent's items around them
+        rw [hown, ← hownLen] at he
+        obtain ⟨b1, b2⟩ := wireArrs_ref c rfl pitems (.ok own) own.length (withConstants allCs v) pitems bs hwp he
+        have hndB : ((wireArrs c pitems (withConstants allCs v)).map (·.id)).Nodup :=
+          (wireArrs_ids_sublist c _ pitems).nodup hndp
+        have b1' : Ref.arrays e pitems (withConstants allCs v) = some (wireArrs c pitems (withConstants allCs v)) := b1
+        simp only [b1']
+        exact encItems_ref c rfl pitems own (withConstants allCs v) _ b2 hndB pitems bs hwp (fun a ha => ha) he
 
-end Ref
+/-! non-vacuity: `packet P { a: 3, b: 13, _size_(x): 8, x: 16[], _payload_ }` meets `refWfBody` -/
+example : refWfBody (.root "P" (.cons (.chunk [.scalar "a" 3, .scalar "b" 13, .size "x" 8 0])
+    (.cons (.array "x" (.scalar 16) (.static 2) .sizeField none) (.cons (.payload .last) .nil)))) = true := by
+  simp [refWfBody, refWfItems, refWfItem, refWfTy, lenWfItems, lenWfItem, lenWfTy, staticTy, arrayIds,
+    chunkBits, BitField.width, bfOk, targetOk, firstArray]
+
+/-! ### the model of the emitted encoder vs the reference mode
+
+The emitted encoder deviates from the reference in two recorded ways only: array size modifiers
+are ignored (KF-C03-array-size-modifier) and array elements of width 24/40/48/56 are written
+without a range check (KF-C05-array-elem-trunc).  Away from array size modifiers, whenever the
+reference mode produces bytes the model of the emitted code produces the same bytes. -/
+
+theorem encChunkFields_ideal_to_rust (all : Items) (pl : Nat) (v : Value) :
+    ∀ (fs : List BitField) (shift acc X : Nat), fs.all bfNoArrayMod = true →
+      encChunkFields true all pl v fs shift acc = .ok X → encChunkFields false all pl v fs shift acc = .ok X := by
+  intro fs
+  induction fs with
+  | nil => intro shift acc X _ h; simpa [encChunkFields] using h
+  | cons f fs ih =>
+    intro shift acc X hnm h
+    simp only [List.all_cons, Bool.and_eq_true] at hnm
+    unfold encChunkFields at h ⊢
+    cases f with
+    | scalar id w =>
+      simp only at h ⊢
+      obtain ⟨x, hx, h2⟩ := bind_ok _ _ _ h
+      rw [hx]; simp only [Outcome.bind]
+      split at h2
+      · cases h2
+      · split at h2
+        · cases h2
+        · rename_i h1 h3
+          simp only [h1, h3, ↓reduceIte]
+          exact ih _ _ _ hnm.2 h2
+    | flag id opts =>
+      simp only at h ⊢
+      cases opts with
+      | nil => cases h
+      | cons o rest =>
+        simp only at h ⊢
+        split at h
+        · cases h
+        · rename_i hc
+          simp only [hc, ↓reduceIte]
+          exact ih _ _ _ hnm.2 h
+    | enumTy id ty e =>
+      simp only at h ⊢
+      obtain ⟨x, hx, h2⟩ := bind_ok _ _ _ h
+      rw [hx]; simp only [Outcome.bind]
+      split at h2
+      · rename_i hok; simp only [hok, ↓reduceIte]; exact ih _ _ _ hnm.2 h2
+      · cases h2
+    | fixed w c => exact ih _ _ _ hnm.2 h
+    | reserved w => exact ih _ _ _ hnm.2 h
+    | size t w m =>
+      simp only at h ⊢
+      obtain ⟨s0, hs0, h2⟩ := bind_ok _ _ _ h
+      rw [hs0]; simp only [Outcome.bind]
+      simp only [Bool.true_or, ↓reduceIte] at h2
+      simp only [bfNoArrayMod, Bool.or_eq_true, beq_iff_eq] at hnm
+      have hsame : (if (false || t == "_payload_" || t == "_body_") = true then s0 + m else s0) = s0 + m := by
+        rcases hnm.1 with (h1 | h1) | h1
+        · simp [h1]
+        · simp [h1]
+        · split <;> simp [h1]
+      simp only [hsame]
+      split at h2
+      · cases h2
+      · rename_i hm; simp only [hm, ↓reduceIte]; exact ih _ _ _ hnm.2 h2
+    | elemSize t w =>
+      simp only at h ⊢
+      obtain ⟨vs, hvs, h2⟩ := bind_ok _ _ _ h
+      rw [hvs]; simp only [Outcome.bind]
+      cases hty : encChunkFields.elemTy t all with
+      | none => simp [hty] at h2
+      | some ty =>
+        simp only [hty] at h2 ⊢
+        cases vs with
+        | nil =>
+          simp only [List.any_nil, Bool.false_eq_true, ↓reduceIte] at h2 ⊢
+          split at h2
+          · cases h2
+          · rename_i h3; simp only [h3, ↓reduceIte]; exact ih _ _ _ hnm.2 h2
+        | cons x xs =>
+          simp only at h2 ⊢
+          split at h2
+          · cases h2
+          · rename_i h1
+            split at h2
+            · cases h2
+            · rename_i h3; simp only [h1, h3, ↓reduceIte]; exact ih _ _ _ hnm.2 h2
+    | count t w =>
+      simp only at h ⊢
+      obtain ⟨vs, hvs, h2⟩ := bind_ok _ _ _ h
+      rw [hvs]; simp only [Outcome.bind]
+      simp only [true_or, true_and] at h2
+      split at h2
+      · cases h2
+      · rename_i hm
+        have : ¬ ((false = true ∨ w < 64) ∧ vs.length > maskBits w) := fun hh => hm hh.2
+        simp only [this, ↓reduceIte]
+        exact ih _ _ _ hnm.2 h2
+
+/-- a level without payload item does not look at the inner encoding -/
+theorem encItems_no_payload (c : Cfg) (all : Items) (inner inner' : Enc Bytes) (pl : Nat) (v : Value) :
+    ∀ (is : Items), is.hasPayload = false → encItems c all inner pl v is = encItems c all inner' pl v is
+  | .nil, _ => rfl
+  | .cons i r, h => by
+    cases i with
+    | payload m => simp [Items.hasPayload] at h
+    | chunk fs =>
+      simp only [encItems, encItem]
+      rw [encItems_no_payload c all inner inner' pl v r (by simpa [Items.hasPayload] using h)]
+    | array id elem ew shape pad =>
+      simp only [encItems, encItem]
+      rw [encItems_no_payload c all inner inner' pl v r (by simpa [Items.hasPayload] using h)]
+    | typedef id ty sb =>
+      simp only [encItems, encItem]
+      rw [encItems_no_payload c all inner inner' pl v r (by simpa [Items.hasPayload] using h)]
+    | optional id ty ci cv =>
+      simp only [encItems, encItem]
+      rw [encItems_no_payload c all inner inner' pl v r (by simpa [Items.hasPayload] using h)]
+
+mutual
+theorem encTy_ideal_to_rust (e : Endian) : ∀ (ty : Ty) (x : Value) (bs : Bytes), noModTy ty = true →
+    encTy { e := e, mode := .ideal } ty x = .ok bs → encTy { e := e, mode := .rust } ty x = .ok bs
+  | .scalar w, x, bs, _, he => by
+    cases x with
+    | int n =>
+      simp only [encTy, elemOutOfRange] at he ⊢
+      split at he
+      · cases he
+      · rename_i h1
+        by_cases hgt : n > maskBits w
+        · simp [hgt] at he
+        · simp only [hgt, decide_false, Bool.false_eq_true, ↓reduceIte] at he
+          simp only [h1, ↓reduceIte, Bool.false_eq_true]; exact he
+    | arr _ => simp [encTy] at he
+    | obj _ => simp [encTy] at he
+    | null => simp [encTy] at he
+  | .enumTy _ _, x, bs, _, he => by
+    cases x <;> simpa [encTy] using he
+  | .custom _ _, x, bs, _, he => by
+    cases x <;> simpa [encTy] using he
+  | .struct _ b, x, bs, hn, he => by
+    simp only [noModTy] at hn
+    simp only [encTy] at he ⊢
+    exact encBody_ideal_to_rust e b x bs hn he
+
+theorem encItem_ideal_to_rust (e : Endian) (all : Items) (p : Enc Bytes) (pl : Nat) (v : Value) :
+    ∀ (i : Item) (bs : Bytes), noModItem i = true →
+      encItem { e := e, mode := .ideal } all p pl v i = .ok bs → encItem { e := e, mode := .rust } all p pl v i = .ok bs
+  | .chunk fs, bs, hn, he => by
+    simp only [noModItem] at hn
+    simp only [encItem] at he ⊢
+    obtain ⟨X, hX, h2⟩ := bind_ok _ _ _ he
+    have hX' : encChunkFields true all pl v fs 0 0 = .ok X := by simpa using hX
+    have := encChunkFields_ideal_to_rust all pl v fs 0 0 X hn hX'
+    have hf : (({ e := e, mode := .rust } : Cfg).mode == Mode.ideal) = false := rfl
+    rw [hf, this]; exact h2
+  | .typedef id ty sb, bs, hn, he => by
+    simp only [noModItem] at hn
+    simp only [encItem] at he ⊢
+    cases hv : v.get? id with
+    | none => simp [hv] at he
+    | some x => simp only [hv] at he ⊢; exact encTy_ideal_to_rust e ty x bs hn he
+  | .optional id ty ci cv, bs, hn, he => by
+    simp only [noModItem] at hn
+    simp only [encItem] at he ⊢
+    cases hv : v.get? id with
+    | none => simpa [hv] using he
+    | some x =>
+      simp only [hv] at he ⊢
+      cases x with
+      | null => exact he
+      | int n =>
+        cases ty with
+        | scalar w => exact he
+        | enumTy nm en => exact encTy_ideal_to_rust e (.enumTy nm en) (.int n) bs hn he
+        | custom nm w => exact encTy_ideal_to_rust e (.custom nm w) (.int n) bs hn he
+        | struct nm b => exact encTy_ideal_to_rust e (.struct nm b) (.int n) bs hn he
+      | arr l =>
+        cases ty with
+        | scalar w => exact he
+        | enumTy nm en => exact encTy_ideal_to_rust e (.enumTy nm en) (.arr l) bs hn he
+        | custom nm w => exact encTy_ideal_to_rust e (.custom nm w) (.arr l) bs hn he
+        | struct nm b => exact encTy_ideal_to_rust e (.struct nm b) (.arr l) bs hn he
+      | obj l =>
+        cases ty with
+        | scalar w => exact he
+        | enumTy nm en => exact encTy_ideal_to_rust e (.enumTy nm en) (.obj l) bs hn he
+        | custom nm w => exact encTy_ideal_to_rust e (.custom nm w) (.obj l) bs hn he
+        | struct nm b => exact encTy_ideal_to_rust e (.struct nm b) (.obj l) bs hn he
+  | .payload m, bs, _, he => by simpa [encItem] using he
+  | .array id elem ew shape pad, bs, hn, he => by
+    simp only [noModItem] at hn
+    simp only [encItem] at he ⊢
+    obtain ⟨vs, hvs, h3⟩ := bind_ok _ _ _ he
+    obtain ⟨u1, hc1, h4⟩ := bind_ok _ _ _ h3
+    obtain ⟨u2, hc2, h5⟩ := bind_ok _ _ _ h4
+    obtain ⟨es, hes, h6⟩ := bind_ok _ _ _ h5
+    have hes' : encListWith (encTy { e := e, mode := .rust } elem) vs = .ok es := by
+      clear h5 h6 hc2 hc1 h4 h3 hvs he
+      induction vs generalizing es with
+      | nil => simpa [encListWith] using hes
+      | cons x xs ih =>
+        simp only [encListWith] at hes ⊢
+        obtain ⟨a, ha, h7⟩ := bind_ok _ _ _ hes
+        obtain ⟨b, hb, h8⟩ := bind_ok _ _ _ h7
+        rw [encTy_ideal_to_rust e elem x a hn ha]
+        simp only [Outcome.bind]
+        rw [ih b hb]
+        exact h8
+    rw [hvs]; simp only [Outcome.bind, hc1, hc2, hes']
+    exact h6
+
+theorem encItems_ideal_to_rust (e : Endian) (all : Items) (p : Enc Bytes) (pl : Nat) (v : Value) :
+    ∀ (is : Items) (bs : Bytes), noModItems is = true →
+      encItems { e := e, mode := .ideal } all p pl v is = .ok bs → encItems { e := e, mode := .rust } all p pl v is = .ok bs
+  | .nil, bs, _, he => by simpa [encItems] using he
+  | .cons i r, bs, hn, he => by
+    simp only [noModItems, Bool.and_eq_true] at hn
+    simp only [encItems] at he ⊢
+    obtain ⟨a, ha, h2⟩ := bind_ok _ _ _ he
+    obtain ⟨b, hb, h3⟩ := bind_ok _ _ _ h2
+    rw [encItem_ideal_to_rust e all p pl v i a hn.1 ha]
+    simp only [Outcome.bind]
+    rw [encItems_ideal_to_rust e all p pl v r b hn.2 hb]
+    exact h3
+
+theorem encAround_ideal_to_rust (e : Endian) : ∀ (b : Body) (v : Value) (inner : Enc Bytes) (len : Nat) (bs : Bytes),
+    noModBody b = true → encAround { e := e, mode := .ideal } b v inner len = .ok bs →
+      encAround { e := e, mode := .rust } b v inner len = .ok bs
+  | .root _ items, v, inner, len, bs, hn, he => by
+    simp only [noModBody] at hn
+    simp only [encAround] at he ⊢
+    exact encItems_ideal_to_rust e items inner len v items bs hn he
+  | .derived _ parent _ _ items, v, inner, len, bs, hn, he => by
+    simp only [noModBody, Bool.and_eq_true] at hn
+    simp only [encAround] at he ⊢
+    -- the inner encoding of this level: either ok in both modes, or not ok in the reference mode
+    cases hin : encItems { e := e, mode := .ideal } items inner len v items with
+    | ok ib =>
+      rw [hin] at he
+      rw [encItems_ideal_to_rust e items inner len v items ib hn.1 hin]
+      exact encAround_ideal_to_rust e parent v (.ok ib) _ bs hn.2 he
+    | err x =>
+      rw [hin] at he
+      -- the parent levels ignore a failed inner encoding only if they have no payload item; then
+      -- the model of the emitted code gives the same bytes whatever its own inner outcome is
+      exact encAround_inner_irrelevant e parent v _ _ _ bs hn.2 rfl he
+    | panic q =>
+      rw [hin] at he
+      exact encAround_inner_irrelevant e parent v _ _ _ bs hn.2 rfl he
+
+/-- if the ancestors produce bytes although the inner encoding failed, the inner encoding is not
+    used at all (no payload item up the chain) -/
+theorem encAround_inner_irrelevant (e : Endian) : ∀ (b : Body) (v : Value) (inner inner' : Enc Bytes) (len : Nat) (bs : Bytes),
+    noModBody b = true → inner.isOk = false → encAround { e := e, mode := .ideal } b v inner len = .ok bs →
+      encAround { e := e, mode := .rust } b v inner' len = .ok bs
+  | .root _ items, v, inner, inner', len, bs, hn, hbad, he => by
+    simp only [noModBody] at hn
+    simp only [encAround] at he ⊢
+    have h1 := encItems_ideal_to_rust e items inner len v items bs hn he
+    by_cases hp : items.hasPayload = true
+    · obtain ⟨ib, hib⟩ := encItems_inner_needed _ items inner len v items bs hp he
+      rw [hib] at hbad; simp [Outcome.isOk] at hbad
+    · have hp' : items.hasPayload = false := by simpa using hp
+      rw [← encItems_no_payload _ items inner inner' len v items hp']
+      exact h1
+  | .derived _ parent _ _ items, v, inner, inner', len, bs, hn, hbad, he => by
+    simp only [noModBody, Bool.and_eq_true] at hn
+    simp only [encAround] at he ⊢
+    by_cases hp : items.hasPayload = true
+    · -- this level needs the inner bytes: its own encoding fails too
+      have hbad2 : (encItems { e := e, mode := .ideal } items inner len v items).isOk = false := by
+        cases hx : encItems { e := e, mode := .ideal } items inner len v items with
+        | ok ib =>
+          obtain ⟨ib', hib'⟩ := encItems_inner_needed _ items inner len v items ib hp hx
+          rw [hib'] at hbad; simp [Outcome.isOk] at hbad
+        | err _ => rfl
+        | panic _ => rfl
+      exact encAround_inner_irrelevant e parent v _ _ _ bs hn.2 hbad2 he
+    · have hp' : items.hasPayload = false := by simpa using hp
+      rw [← encItems_no_payload { e := e, mode := .rust } items inner inner' len v items hp']
+      cases hin : encItems { e := e, mode := .ideal } items inner len v items with
+      | ok ib =>
+        rw [hin] at he
+        rw [encItems_ideal_to_rust e items inner len v items ib hn.1 hin]
+        exact encAround_ideal_to_rust e parent v (.ok ib) _ bs hn.2 he
+      | err x =>
+        rw [hin] at he
+        exact encAround_inner_irrelevant e parent v _ _ _ bs hn.2 rfl he
+      | panic q =>
+        rw [hin] at he
+        exact encAround_inner_irrelevant e parent v _ _ _ bs hn.2 rfl he
+
+theorem encBody_ideal_to_rust (e : Endian) : ∀ (b : Body) (v : Value) (bs : Bytes), noModBody b = true →
+    encBody { e := e, mode := .ideal } b v = .ok bs → encBody { e := e, mode := .rust } b v = .ok bs
+  | .root _ items, v, bs, hn, he => by
+    simp only [noModBody] at hn
+    simp only [encBody] at he ⊢
+    split
+    · rename_i hp; simp only [hp] at he; cases he
+    · rename_i p hp
+      simp only [hp] at he
+      exact encItems_ideal_to_rust e items (.ok p) p.length v items bs hn he
+  | .derived _ parent _ allCs items, v, bs, hn, he => by
+    simp only [noModBody, Bool.and_eq_true] at hn
+    simp only [encBody] at he ⊢
+    split
+    · rename_i hp; simp only [hp] at he; cases he
+    · rename_i p hp
+      simp only [hp] at he
+      cases hin : encItems { e := e, mode := .ideal } items (.ok p) p.length (Value.obj (v.fields ++ allCs.map fun (k, c) => (k, Value.int c))) items with
+      | ok ib =>
+        rw [hin] at he
+        rw [encItems_ideal_to_rust e items (.ok p) p.length _ items ib hn.1 hin]
+        exact encAround_ideal_to_rust e parent _ (.ok ib) _ bs hn.2 he
+      | err x =>
+        rw [hin] at he
+        exact encAround_inner_irrelevant e parent _ _ _ _ bs hn.2 rfl he
+      | panic q =>
+        rw [hin] at he
+        exact encAround_inner_irrelevant e parent _ _ _ _ bs hn.2 rfl he
+end
+
+/-- **C03.**  Away from array size modifiers (which the Rust back end ignores: recorded finding
+    KF-C03-array-size-modifier), for every layout meeting `refWfBody`, both byte orders, and every
+    value to which the reference assigns an encoding through the reference mode (`hid`): the model
+    of the emitted Rust encoder succeeds and writes exactly `Ref.encode` — the wire format of
+    doc/reference.md at bit level. -/
+theorem encode_rust_eq_ref (e : Endian) (b : Body) (hw : refWfBody b = true) (hn : noModBody b = true)
+    (v : Value) (bs : Bytes) (hid : encBody { e := e, mode := .ideal } b v = .ok bs) :
+    encBody { e := e, mode := .rust } b v = .ok bs ∧ Ref.encode e b v = some bs :=
+  ⟨encBody_ideal_to_rust e b v bs hn hid, encode_ideal_eq_ref e b hw v bs hid⟩
+
+/-- and whatever else the emitted encoder writes for such a value, it is not a different
+    encoding: encoding is a function -/
+theorem encode_rust_unique (e : Endian) (b : Body) (hw : refWfBody b = true) (hn : noModBody b = true)
+    (v : Value) (bs bs' : Bytes) (hid : encBody { e := e, mode := .ideal } b v = .ok bs)
+    (hr : encBody { e := e, mode := .rust } b v = .ok bs') : Ref.encode e b v = some bs' := by
+  obtain ⟨h1, h2⟩ := encode_rust_eq_ref e b hw hn v bs hid
+  rw [h1] at hr
+  simp only [Outcome.ok.injEq] at hr
+  rw [← hr]; exact h2
+
 end Pdlv
